@@ -1150,5 +1150,12 @@ func judgeC03(root string, c c03Case) (k, m string) {
 			k, m = "panic", fmt.Sprintf("the code under test panicked: %v", r)
 		}
 	}()
-	return judgeC03Raw(root, c)
+	k, m = judgeC03Raw(root, c)
+	if k == "hang" {
+		// the 120 s deadline is wall-clock: on an overloaded machine it can fire for a case that returns in a
+		// millisecond (run #11, DESIGN section 7). A real hang hangs every time: the same case must miss the
+		// deadline twice before it is reported.
+		k, m = judgeC03Raw(root, c)
+	}
+	return k, m
 }
